@@ -57,7 +57,42 @@ def facts():
         old = {k: DEFAULT_SETTINGS_DICT[k] for k in keys[: len(keys) // 2]}
         old["plot_seaborn_style"] = "ticks"          # a user edit that an upgrade must keep
         _FACTS["old_settings"] = old
+        # a more recent old release: only a few of today's keys are unknown to it
+        few = {k: DEFAULT_SETTINGS_DICT[k] for k in keys if k not in keys[3::len(keys) // 4 or 1][:4]}
+        few["plot_seaborn_style"] = "ticks"
+        _FACTS["old_settings_few"] = few
+        _FACTS["old_stamps"] = old_stamps(evo.__version__)
+        _OLD_STAMPS.update(_FACTS["old_stamps"])
     return _FACTS
+
+
+# Release tags of the usual form vMAJOR.MINOR.PATCH that a user may upgrade from.  What an upgrade has to do does not
+# depend on which older tag is stored, so the tags are chosen to differ from the current one in every way a comparison
+# of two tags can go: last / middle / first component smaller, fewer digits in a component (v1.9.0 is older than
+# v1.31.1 although it sorts after it as text), more digits, text order agreeing and disagreeing with release order.
+STAMP_CANDIDATES = ["v1.31.0", "v1.30.4", "v1.28.0", "v1.20.0", "v1.12.0", "v1.10.0", "v1.9.0", "v1.7.1", "v1.5.6",
+                    "v1.4.0", "v1.3.9", "v1.2.4", "v1.0.0", "v0.9.9", "v0.12.3", "v0.40.0", "v2.0.0", "v9.9.9",
+                    "v1.99.0", "v10.0.0"]
+_OLD_STAMPS = {OLD_VERSION}
+
+
+def _vtuple(tag):
+    try:
+        return tuple(int(x) for x in tag.lstrip("v").split("."))
+    except ValueError:
+        return None
+
+
+def old_stamps(current):
+    """candidates that denote an OLDER release than `current` (numeric order of the components), those that sort
+    after `current` as plain text first"""
+    cur = _vtuple(current)
+    out = []
+    for t in STAMP_CANDIDATES:
+        if t == current or current.startswith(t) or (cur is not None and not _vtuple(t) < cur):
+            continue
+        out.append(t)
+    return sorted(out, key=lambda t: (not t > current, STAMP_CANDIDATES.index(t)))
 
 
 def classify(kind, text):
@@ -67,7 +102,7 @@ def classify(kind, text):
     if kind == "ver":
         if text == facts()["version"]:
             return ("Present", ("C", False, True))
-        if text == OLD_VERSION:
+        if text in _OLD_STAMPS:      # a complete tag of an older release
             return ("Present", ("C", False, False))
         return "Partial"
     try:
@@ -102,29 +137,50 @@ HOMES = {
 }
 
 
+HOMES_AT = {
+    # homes left behind by the older release named after the "@": "outdated@v1.9.0"
+    "outdated": (True, "old", "old"),
+    "outdated_few": (True, "few", "old"),
+    "outdated_full": (True, "full", "old"),
+    "ver_old_only": (True, None, "old"),
+}
+
+
+def home_spec(kind):
+    """-> (dir, settings, version, stamp of the old release)"""
+    if "@" in kind:
+        base, stamp = kind.split("@", 1)
+        if stamp == facts()["version"] or facts()["version"].startswith(stamp) or not stamp:
+            raise common.HarnessError("C19: %r is not the tag of an older release" % stamp)
+        _OLD_STAMPS.add(stamp)
+        return HOMES_AT[base] + (stamp,)
+    return HOMES[kind] + (OLD_VERSION,)
+
+
 def make_home(kind):
     root = tempfile.mkdtemp(prefix="evo_c19_")
     home = os.path.join(root, "home")
     os.makedirs(home)
-    d, s, v = HOMES[kind]
+    d, s, v, stamp = home_spec(kind)
     evo_dir = os.path.join(home, ".evo")
     if d:
         os.mkdir(evo_dir)
     if s:
-        doc = facts()["defaults"] if s == "full" else facts()["old_settings"]
+        doc = facts()[{"full": "defaults", "old": "old_settings", "few": "old_settings_few"}[s]]
         with open(os.path.join(evo_dir, "settings.json"), "w") as f:
             f.write(json.dumps(doc, indent=4, sort_keys=True))
     if v:
         with open(os.path.join(evo_dir, "assets_version"), "w") as f:
-            f.write(facts()["version"] if v == "cur" else OLD_VERSION)
+            f.write(facts()["version"] if v == "cur" else stamp)
     with open(os.path.join(home, "merge.json"), "w") as f:
         json.dump({"plot_seaborn_style": "darkgrid", "plot_linewidth": 3.0}, f)
     return root, home
 
 
 def coq_home(kind):
-    d, s, v = HOMES[kind]
-    st = {None: "Absent", "full": "(Present (C true false))", "old": "(Present (C false false))"}[s]
+    d, s, v, _ = home_spec(kind)
+    st = {None: "Absent", "full": "(Present (C true false))", "old": "(Present (C false false))",
+          "few": "(Present (C false false))"}[s]
     vt = {None: "Absent", "cur": "(Present (C false true))", "old": "(Present (C false false))"}[v]
     return "(update (fs_home %s %s %s) (PForeign 0) (Present (C false false)))" % (cbool(d), st, vt)
 
@@ -498,6 +554,58 @@ def scenario_list(ctx):
     return out
 
 
+def upgrade_cases(ctx):
+    """Version upgrades from homes left behind by older releases with realistic tags (the statement's "a version
+    upgrade"; "any evo process that starts afterwards or concurrently loads its settings successfully and sees every
+    default key"): every older tag of old_stamps() - among them tags that sort AFTER the current one as text - with a
+    settings.json that lacks some of today's keys (half of them / four of them) or none: the upgrading start alone
+    (followed by the plain start), every crash point of the upgrade followed by a fresh start, two racing starts,
+    and evo_config commands whose start performs the upgrade."""
+    stamps = facts()["old_stamps"]
+    cur = facts()["version"]
+    after = [t for t in stamps if t > cur]
+    before = [t for t in stamps if not t > cur]
+    bases = ["outdated", "outdated_few", "outdated", "outdated_few", "outdated_full", "ver_old_only"]
+    out, solos = [], []
+    for k, t in enumerate(stamps):
+        base = bases[k % len(bases)] if ctx.quick else None
+        for b in ([base] if base else ["outdated", "outdated_few", "outdated_full", "ver_old_only"]):
+            solos.append(solo("%s@%s" % (b, t), "start", 0 if (ctx.quick or k % 2) else 1))
+    run_all(solos)
+    out += solos
+    rng = ctx.rng
+    picks = []
+    if after:
+        picks.append(("outdated_few@%s" % after[rng.randrange(len(after))]))
+        picks.append(("outdated@%s" % after[rng.randrange(len(after))]))
+    if before:
+        picks.append(("outdated_few@%s" % before[rng.randrange(len(before))]))
+    if not ctx.quick:
+        picks = ["%s@%s" % (b, t) for t in stamps for b in ("outdated", "outdated_few")]
+    for j, h in enumerate(picks):
+        s0 = solo(h, "start", 0)
+        run_all([s0])
+        n = len(_CACHE[key(s0)]["trace"])
+        out.append(s0)
+        if ctx.quick and j == 1:
+            # second pick of the quick tier: racing starts instead of crash points
+            for a in range(0, n + 1, 4):
+                for b in range(0, n + 2, 4):
+                    out.append(race(h, ["start", "start"], 0, [a, b]))
+            continue
+        for k in range(0, n + 1):
+            out.append(crash(h, "start", 0, k))
+        if not ctx.quick and j % 4 == 0:
+            for a in range(0, n + 1, 2):
+                for b in range(0, n + 2, 2):
+                    out.append(race(h, ["start", "start"], 0, [a, b]))
+    for j, t in enumerate((after[:2] + before[:1]) if ctx.quick else stamps):
+        cmds = [c for c in COMMANDS if c != "start"]
+        for c in ([cmds[(j + ctx.rng.randrange(len(cmds))) % len(cmds)], "set"] if ctx.quick else cmds):
+            out.append(solo("outdated@%s" % t, c, 0))
+    return out
+
+
 _CACHE = {}
 
 
@@ -584,6 +692,7 @@ def run(ctx, replay=None, proofs_ok=True):
                 for b in range(0, 30, 5):
                     cases.append(race("init", ["set", "reset_subset"], 0, [a, b]))
                     cases.append(race("outdated", ["set", "start"], 0, [a, b]))
+        cases += upgrade_cases(ctx)
         seen, uniq = set(), []
         for c in cases:
             if key(c) not in seen:
@@ -617,6 +726,9 @@ def run(ctx, replay=None, proofs_ok=True):
            "fs_steps_checked": steps,
            "stress_runs": {"simultaneous_first_starts": 8, "repetitions": n_stress, "failures": len(stress_bad)},
            "scenarios": ["%s/%s/chunks=%d" % s for s in scenario_list(ctx)],
+           "upgrade_from_release_tags": facts()["old_stamps"],
+           "release_tags_sorting_after_the_current_one_as_text": [t for t in facts()["old_stamps"]
+                                                                  if t > facts()["version"]],
            "disagreements": stats["disagreements"]}
     return {"failures": failures, "coverage": cov}
 
